@@ -15,7 +15,7 @@ pub const DEF: PropDef = PropDef {
     id: "C07",
     run,
     oracle,
-    rule: "cases = conformant histories (C04/C05 plans, V9 count = flowsets, 1..3 packets per call) in which the template of one (protocol, id) X is withheld: every template record for X is removed while its data sets are still encoded under X's first definition, at whatever position the plan puts them (first/middle/last flowset of a packet, first/middle/last packet of a buffer, with template flowsets for other ids around); ids are shared between V9 and IPFIX so X is usually defined for the other protocol. Then: the template is fed to a second parser instance only, the data packet is replayed to the first parser (still unknown there), the template is finally fed to the first parser and the same data bytes are replayed again. Oracle per call: reference decode under the per-parser model; a V9 packet containing data for an id absent from that parser's model must be the final Error element (the templates of complete flowsets before it are learned, nothing else); an IPFIX message must be reported without any set of that id - either the library's documented behaviour (decoding of the message stops there) or skipping just that set is accepted, the cache model follows whichever was observed; caches equal the model after every call; all other packets and sets must equal the reference decode; after delivery of the template the replayed bytes must decode to exactly the reference records. non-trivial = an unknown-id flowset occurred and (an earlier packet precedes it in the buffer, or X exists in the other protocol / other parser, or the template arrived later and the data was replayed and decoded); distinct by digest.",
+    rule: "cases = conformant histories (C04/C05 plans, V9 count = flowsets, 1..3 packets per call) in which the template of one (protocol, id) X is withheld: every template record for X is removed while its data sets are still encoded under X's first definition, at whatever position the plan puts them (first/middle/last flowset of a packet, first/middle/last packet of a buffer, with template flowsets for other ids around); ids are shared between V9 and IPFIX so X is usually defined for the other protocol. Then: the template is fed to a second parser instance only, the data packet is replayed to the first parser (still unknown there; in one case out of six it is replayed 2..6 times, in one out of fifty 70..300 times in a row - a lost template packet), the template is finally fed to the first parser and the same data bytes are replayed again. Oracle per call: reference decode under the per-parser model; a V9 packet containing data for an id absent from that parser's model must be the final Error element (the templates of complete flowsets before it are learned, nothing else); an IPFIX message must be reported without any set of that id - either the library's documented behaviour (decoding of the message stops there) or skipping just that set is accepted, the cache model follows whichever was observed; caches equal the model after every call; all other packets and sets must equal the reference decode; after delivery of the template the replayed bytes must decode to exactly the reference records. non-trivial = an unknown-id flowset occurred and (an earlier packet precedes it in the buffer, or X exists in the other protocol / other parser, or the template arrived later and the data was replayed and decoded); distinct by digest.",
     assumptions: &["for IPFIX both 'stop at the undecodable set' (current, documented in the property's anchors) and 'skip only that set' are accepted as omitting the set"],
 };
 
@@ -276,8 +276,13 @@ pub fn c07_case() -> BoxedStrategy<Case> {
         proptest::collection::vec(gen::entropy(), 0..=3),
         any::<u8>(),
         any::<u8>(),
+        prop_oneof![
+            40 => Just(0usize),
+            8 => 1usize..6,
+            1 => prop_oneof![Just(70usize), Just(130), Just(300)],
+        ],
     )
-        .prop_map(|(pool, calls, is_v9, sel, recs, where_call, where_atom)| assemble(pool, calls, is_v9, sel, recs, where_call, where_atom))
+        .prop_map(|(pool, calls, is_v9, sel, recs, where_call, where_atom, extra)| assemble(pool, calls, is_v9, sel, recs, where_call, where_atom, extra))
         .boxed()
 }
 
@@ -290,6 +295,7 @@ pub fn assemble(
     recs: Vec<Vec<u8>>,
     where_call: u8,
     where_atom: u8,
+    extra_unknown: usize,
 ) -> Case {
     {
         {
@@ -345,6 +351,11 @@ pub fn assemble(
             tp.bytes(&set.0);
             if has_data {
                 out.push(Call { parser: 1, packets: vec![tp.0.clone()] });
+                // the data keeps arriving while its template is missing (a lost template
+                // packet): every one of these calls must leave the caches as they are
+                for _ in 0..extra_unknown {
+                    out.push(Call { parser: 0, packets: vec![dpk.clone()] });
+                }
                 out.push(Call { parser: 0, packets: vec![dpk.clone()] });
                 if !header_only {
                     // (a data set without records has no conformant reading once X is known)
